@@ -353,7 +353,17 @@ def discharge_one(o, tier="quick"):
 def discharge_all(obls, tier="quick", workers=None):
     workers = workers or int(os.environ.get("VERIF_WORKERS", "14"))
     with ThreadPoolExecutor(max_workers=workers) as ex:
-        return list(ex.map(lambda o: discharge_one(o, tier), obls))
+        vs = list(ex.map(lambda o: discharge_one(o, tier), obls))
+    # verdicts must not flip under load: anything left undecided is retried with a much larger budget and little parallelism
+    retry = [i for i, v in enumerate(vs) if v.status == "undecided" and v.o.expect != "site"]
+    if retry:
+        with ThreadPoolExecutor(max_workers=4) as ex:
+            again = list(ex.map(lambda i: discharge_one(vs[i].o, "thorough"), retry))
+        for i, v in zip(retry, again):
+            v.detail["retried"] = True
+            v.ms += vs[i].ms
+            vs[i] = v
+    return vs
 
 
 def parse_model(txt):
